@@ -195,6 +195,7 @@ type Ctx interface {
 	SetHeader(k, v string)
 	WriteString(s string)           // Context.WriteString: panics with the write error, like rux
 	Blob(status int, data string)   // Context.Blob: status, content type, then the data if there is any
+	RequestDigest() string          // what the request getters report: accepted types, query values
 	Peek()                          // every read-only getter of the context (what it returns is edited where it is a map): nothing changes
 	Stream(status int, data string) // Context.Stream: status, content type, then the reader's bytes (errors are recorded)
 	Length() int
@@ -339,8 +340,8 @@ func Run(s *Script, c Ctx, tr *Trace) {
 			tr.Thrown = v
 			panic(v)
 		case OpObserve:
+			tr.Add("  %s observes%s data={%s} errors=%d params={%s} request{%s}", s.Name, ab(c), dataText(c.Data()), c.NumErrors(), paramsText(c.Params()), c.RequestDigest())
 			c.Peek()
-			tr.Add("  %s observes%s data={%s} errors=%d params={%s}", s.Name, ab(c), dataText(c.Data()), c.NumErrors(), paramsText(c.Params()))
 		case OpHTTPError:
 			http.Error(c.Resp(), o.S, o.N)
 		case OpRedirect:
@@ -480,6 +481,10 @@ func (r *RCtx) WrapResp()                   { r.C.Resp = &wrapWriter{r.C.Resp} }
 func (r *RCtx) WithReqCtxValue(k, v string) { r.C.WithReqCtxValue(ctxKey(k), v) }
 func (r *RCtx) ReqCtxValue(k string) any    { return r.C.ReqCtxValue(ctxKey(k)) }
 func (r *RCtx) ObserveAborted() bool        { return !r.NoAbt }
+
+func (r *RCtx) RequestDigest() string {
+	return fmt.Sprintf("accept=%q page=%q query=%q", r.C.AcceptedTypes(), r.C.Query("page"), r.C.QueryValues().Encode())
+}
 
 // Peek calls the getters of the context, as logging, metrics or debugging code does anywhere in a chain.
 func (r *RCtx) Peek() {
@@ -621,5 +626,17 @@ func (m *MCtx) ReqCtxValue(k string) any {
 }
 func (m *MCtx) ObserveAborted() bool { return !m.NoAbt }
 func (m *MCtx) Peek()                {}
-func (m *MCtx) Yield()               {}
-func (m *MCtx) CopyForLater()        {}
+
+// RequestDigest is read off the request itself.
+func (m *MCtx) RequestDigest() string {
+	accept := []string{}
+	for _, part := range strings.Split(m.Request.Header.Get("Accept"), ",") {
+		if part = strings.TrimSpace(strings.Split(part, ";")[0]); part != "" {
+			accept = append(accept, part)
+		}
+	}
+	q := m.Request.URL.Query()
+	return fmt.Sprintf("accept=%q page=%q query=%q", accept, q.Get("page"), q.Encode())
+}
+func (m *MCtx) Yield()        {}
+func (m *MCtx) CopyForLater() {}
